@@ -375,7 +375,8 @@ class Gen:
         }
         for c in t.containers:
             ty, nm = cont[c]
-            self.reg.append('    v.push(entry::<%s>("%s", %s, %s, %s));' % (ty % rust_path, nm % def_name, vers, fam, tags))
+            # container variants skip the stream-level suites (C08, C14): the container adds nothing there
+            self.reg.append('    v.push(entry_c::<%s>("%s", %s, %s, %s));' % (ty % rust_path, nm % def_name, vers, fam, tags))
 
     def emit_item(self, t, prefix=""):
         if t.is_enum:
@@ -387,7 +388,7 @@ class Gen:
         head = [
             "// @generated by tools/genzoo.py — do not edit",
             "#![allow(unused_imports, clippy::all)]",
-            "use crate::suite::{entry, entry_ni, Entry};",
+            "use crate::suite::{entry, entry_c, entry_ni, Entry};",
             "use crate::val::*;",
             "use savefile::prelude::*;",
             "use savefile::{AbiRemoved, Removed};",
